@@ -411,37 +411,50 @@ func writePairwiseAlignment(p string, w int, cPair chan alignPair, cWriteDone ch
 	} else {
 		os.MkdirAll(p, 0755)
 
-		for AP := range cPair {
-			// forward slashes are illegal in unix filenames (so is ascii NUL ?)
-			des := strings.ReplaceAll(AP.queryname, "/", "_")
-			// unix filenames must be <= 255 chars, (account for ".fasta")
-			if len(des) > 249 {
-				fmt.Fprintf(os.Stderr, "Filename too long, truncating \"%s\" to: \"%s\"\n", des, des[0:249])
-				des = des[0:249]
-			}
-			f, err := os.Create(path.Join(p, des+".fasta"))
-			if err != nil {
-				cErr <- err
-			}
-			if !omitRef {
-				_, err = f.WriteString(">" + AP.refname + "\n")
+		// the pairs arrive in the order in which the workers finish: write the files in input order, so that a
+		// query name that occurs in more than one block of the sam file gives the same file on every run
+		outputMap := make(map[int]alignPair)
+		counter := 0
+		for arrived := range cPair {
+			outputMap[arrived.idx] = arrived
+			for {
+				AP, ok := outputMap[counter]
+				if !ok {
+					break
+				}
+				// forward slashes are illegal in unix filenames (so is ascii NUL ?)
+				des := strings.ReplaceAll(AP.queryname, "/", "_")
+				// unix filenames must be <= 255 chars, (account for ".fasta")
+				if len(des) > 249 {
+					fmt.Fprintf(os.Stderr, "Filename too long, truncating \"%s\" to: \"%s\"\n", des, des[0:249])
+					des = des[0:249]
+				}
+				f, err := os.Create(path.Join(p, des+".fasta"))
 				if err != nil {
 					cErr <- err
 				}
-				_, err = f.WriteString(wrap(string(AP.ref), w))
+				if !omitRef {
+					_, err = f.WriteString(">" + AP.refname + "\n")
+					if err != nil {
+						cErr <- err
+					}
+					_, err = f.WriteString(wrap(string(AP.ref), w))
+					if err != nil {
+						cErr <- err
+					}
+				}
+				_, err = f.WriteString(">" + AP.queryname + "\n")
 				if err != nil {
 					cErr <- err
 				}
+				_, err = f.WriteString(wrap(string(AP.query), w))
+				if err != nil {
+					cErr <- err
+				}
+				f.Close()
+				delete(outputMap, counter)
+				counter++
 			}
-			_, err = f.WriteString(">" + AP.queryname + "\n")
-			if err != nil {
-				cErr <- err
-			}
-			_, err = f.WriteString(wrap(string(AP.query), w))
-			if err != nil {
-				cErr <- err
-			}
-			f.Close()
 		}
 	}
 	cWriteDone <- true
